@@ -10,6 +10,9 @@ namespace Pw
 inductive Tail where
   | wait   -- nothing more has arrived: the server blocks in Read
   | rerr   -- the transport fails reads from here on
+  /-- the client has closed its side: reads return EOF (`partial`: bytes of an incomplete
+      message are pending, so `io.ReadFull` reports an unexpected EOF) -/
+  | eof (midMessage : Bool)
   deriving Repr, DecidableEq
 
 structure Portal where
@@ -76,7 +79,7 @@ def Inp.next (s : Inp) : Rd × Inp :=
   match s.items with
   | .msg t b :: r => (.item (.msg t b), { s with items := r, msg := b })
   | .big t size full :: r => (.item (.big t size full), { s with items := r, msg := [] })
-  | [] => (match s.tail with | .wait => .blocked | .rerr => .rerr, s)
+  | [] => (match s.tail with | .wait => .blocked | _ => .rerr, s)
 
 /-! ### result writer (writer.go, row.go) -/
 
@@ -174,11 +177,16 @@ def copyRead : Nat → Inp → Option CopyRes × Inp
   | fuel + 1, s =>
     match s.next with
     | (.blocked, s) => (none, s)
-    | (.rerr, s) => (some (.err (.lib errRead)), s)
+    | (.rerr, s) =>
+      (match s.tail with
+       | .eof false => (some .eof, s)                              -- io.EOF looks like CopyDone
+       | .eof true => (some (.err (.lib errUnexpectedEOF)), s)
+       | _ => (some (.err (.lib errRead)), s))
     | (.item (.big _ size full), s) =>
       if full then (some (.err (.lib (errSizeExceeded s.L size))), s)
       else (match s.tail with
         | .wait => (none, s)                                   -- blocked inside Slurp
+        | .eof _ => (some (.err (.lib errUnexpectedEOF)), s)
         | .rerr => (some (.err (.lib errRead)), s))
     | (.item (.msg t body), s) =>
       if t = ch 'H' ∨ t = ch 'S' then copyRead fuel s
@@ -674,7 +682,7 @@ def stepCommand (h : Handlers) (s : Sess) : Step :=
   | (.item (.big t size full), i) =>
     let s := { s with inp := i }
     if full then handleOversize t size s
-    else .stop s (match i.tail with | .wait => .waiting | .rerr => .closed)   -- Slurp did not complete
+    else .stop s (match i.tail with | .wait => .waiting | _ => .closed)   -- Slurp did not complete
   | (.item (.msg t _), i) => handleCommand h t { s with inp := i }
 
 /-- `consumeCommands` after the initial ReadyForQuery.  Every iteration consumes at least one
